@@ -144,12 +144,13 @@ def gen_exhaustive(tier, r):
     streams = []
     for m in cat:
         streams.append([m])
-    for a, b in itertools.product(cat, cat):
+    core = cat if tier != "quick" else cat[:5] + cat[7:10]
+    for a, b in itertools.product(core, core):
         if len(a[0]) + len(b[0]) <= 160:
             streams.append([a, b])
     triples = [t for t in itertools.product(cat, repeat=3) if sum(len(m[0]) for m in t) <= 160]
     r.shuffle(triples)
-    streams += [list(t) for t in triples[: (12 if tier == "quick" else 260)]]
+    streams += [list(t) for t in triples[: (6 if tier == "quick" else 260)]]
     return streams
 
 
@@ -337,6 +338,10 @@ async def _run(ctx):
                 add(f"wf:uncut:{fr}", f"well-formed stream is not parsed to the messages that were sent, even in one read "
                     f"(first differing message has framing '{fr}')", True, stream=hx(s), cuts=[], impl=whole, expected=want)
             else:
+                for c in cuts:                       # smallest replay: a single cut if one suffices
+                    if impl.run(split(s, (c,))) != want:
+                        cuts, got = (c,), impl.run(split(s, (c,)))
+                        break
                 add(f"wf:cut:{fr}", f"well-formed stream: reads cut at {list(cuts)} change the delivered messages "
                     f"(first differing message has framing '{fr}')", True, stream=hx(s), cuts=list(cuts), impl=got,
                     impl_one_piece=whole, expected=want)
@@ -378,8 +383,8 @@ async def _run(ctx):
         if len(cov.samples) < 4:
             cov.samples.append(dict(stream="A", bytes=s.decode("latin1"), segmentations=n, delivered=len(ms)))
     cov.extra["exhaustive"] = True
-    cov.extra["exhaustive_part"] = (f"{len(ex_streams)} well-formed streams <= 160 bytes (every catalogue message alone, every ordered pair, "
-                                    f"{12 if tier == 'quick' else 260} sampled triples): every single and every double cut position, "
+    cov.extra["exhaustive_part"] = (f"{len(ex_streams)} well-formed streams <= 160 bytes (every catalogue message alone, every ordered pair" + (" of 8 of them" if tier == "quick" else "") + f", "
+                                    f"{6 if tier == 'quick' else 260} sampled triples): every single and every double cut position, "
                                     f"{n_ex_cases} segmentations")
 
     # ---- B: random well-formed sequences, boundary-size bodies, random multi-cuts
